@@ -384,6 +384,9 @@ def main(tier, seed):
                 mm = re.match(r'^"([0-9A-Fa-f]+)"', body)
                 if not mm or mm.group(1) != val:
                     msg = "token %r is read to the binary %s without an error although it does not spell it" % (d, val)
+            # a token that is there (not $) and is no binary must not leave the attribute unset without an error
+            if msg is None and sev >= 3 and assigned == 0 and body[:1] == DQ:
+                msg = "token %r is not a binary (no digits) and is read without an error, leaving the attribute unset" % d
         if k < len(mo) and io[k].split()[:7] != mo[k].split()[:7]:
             disagreements += 1
             if disagreements <= 5:
